@@ -528,3 +528,123 @@ def c01_r5(ctx, f, rid="C01.R5"):
                 "codeword bits are not placed in the ISO zig-zag order / bit order, or a function module is written "
                 "(first offending modules of the first configuration shown; tags are (byte, bit, negated))")
     ctx.floor(rid, "versions evaluated", runs, len(versions))
+
+
+# ---------------------------------------------------------------------------------------------------------------------
+# C02.R4: block slicing and interleaving with symbolic data codewords, all 160 (version, level) cells
+# ---------------------------------------------------------------------------------------------------------------------
+
+def _div_summary(pe, st, args, t):
+    """polynomials::division(block, generator) -> [u8; 255]: opaque here (decided by C07.R1/R2: the remainder occupies the
+    last len(g)-1 cells).  Cell i of the result is the symbol rembuf(block lo, block hi, i)."""
+    a = peval._deref(pe, st, args[0])
+    if a == TOP or a[0] != "symslice":
+        raise fold._Abort("top", "division called on something other than a slice of the data codewords")
+    return ("array", tuple(("rembuf", a[1], a[2], i) for i in range(255)))
+
+
+def _structure_job(v):
+    f = _G["facts"]
+    out = {"v": v, "cells": {}}
+    for l in ref.LEVELS:
+        pe = peval.PEval(f)
+        pe.summaries["polynomials::division"] = _div_summary
+        n = ref.data_codewords(v, l)
+        r = pe.call("polynomials::structure", [("ref", ("const", ("symvec", n))), mk_enum(ECL, l), mk_enum(VERSION, "V%02d" % v)])
+        if r.kind != "ret":
+            out["cells"][l] = {"status": (r.kind, r.why)}
+            continue
+        val = r.value
+        if val != TOP and val[0] == "harr":
+            ln, d, cells = pe.heap.arrs[val[1]]
+            seq = {i: c for i, c in cells.items()}
+            out["cells"][l] = {"status": ("ret", None), "len": ln, "default": d, "seq": seq}
+        elif val != TOP and val[0] == "array":
+            out["cells"][l] = {"status": ("ret", None), "len": len(val[1]), "default": None, "seq": dict(enumerate(val[1]))}
+        else:
+            out["cells"][l] = {"status": ("top", "result is not an array")}
+    return out
+
+
+def c02_r4(ctx, f, rid="C02.R4"):
+    ctx.rule(rid, "interleaving by partial evaluation with symbolic data codewords: output = ISO interleave of data blocks, then of "
+                  "EC blocks (remainder cells 256-len(g)+j of the block's own division), zero after, for all 160 cells")
+    fn = anchor_fn(ctx, rid, f, "polynomials::structure", ["&[u8]", ECL, VERSION], None) or f.fn("polynomials::structure")
+    if not fn:
+        return
+    if f.fn("polynomials::division") is None:
+        ctx.anchor_missing(rid, "polynomials::division")
+        return
+    _G["facts"] = f
+    versions = list(range(1, 41))
+    mp = multiprocessing.get_context("fork")
+    with mp.Pool(min(16, os.cpu_count() or 1)) as pool:
+        res = pool.map(_structure_job, sorted(versions, reverse=True), chunksize=1)
+    groups = _Groups()
+    runs = 0
+    for job in sorted(res, key=lambda r: r["v"]):
+        v = job["v"]
+        for l in ref.LEVELS:
+            inst = "%s/V%02d" % (l, v)
+            r = job["cells"][l]
+            if r["status"][0] != "ret":
+                if r["status"][0] == "diverge":
+                    groups.add("diverges", inst, None, r["status"][1])
+                else:
+                    ctx.abstain(rid, "structure() is not foldable for %s: %s" % (inst, r["status"][1]), where_fn(fn))
+                continue
+            runs += 1
+            s1, l1, s2, l2 = ref.layout(v, l)
+            ec = ref.ec_per_block(v, l)
+            blocks = []
+            lo = 0
+            for _ in range(s1):
+                blocks.append((lo, lo + l1))
+                lo += l1
+            for _ in range(s2):
+                blocks.append((lo, lo + l2))
+                lo += l2
+            exp = []
+            for i in range(max(l1, l2)):
+                for (a, b) in blocks:
+                    if i < b - a:
+                        exp.append(("sbyte", a + i))
+            for j in range(ec):
+                for (a, b) in blocks:
+                    exp.append(("rembuf", a, b, 255 - ec + j))
+            total = ref.total_codewords(v)
+            seq = r["seq"]
+            dflt = r["default"]
+            bad = None
+            if len(exp) != total:
+                bad = ("reference", "layout does not add up", len(exp), total)
+            for k in range(r["len"]):
+                got = seq.get(k, dflt)
+                want = exp[k] if k < len(exp) else ("int", "u8", 0)
+                if got != want and bad is None:
+                    part = "data" if k < lo else ("ec" if k < total else "tail")
+                    bad = (part, k, want, got)
+            ctx.check(rid, r["len"] >= total + 1 or ref.remainder_bits(v) == 0, "polynomials::structure/buffer/%s" % inst, where_fn(fn), fn.path,
+                      inst, "the codeword buffer has no zero byte after the last codeword to supply the remainder bits",
+                      expected=total + 1, found=r["len"]) if ref.remainder_bits(v) else None
+            if bad is None:
+                ctx.ok(rid, "%s: %d data + %d EC codewords interleaved over %d blocks as in ISO 7.6, zero after" % (
+                    inst, lo, total - lo, len(blocks)))
+            else:
+                groups.add("%s-part" % bad[0], inst, "position %s: %s" % (bad[1], _sym(bad[2], ec)), _sym(bad[3], ec))
+    groups.emit(ctx, rid, "polynomials::structure", where_fn(fn), fn.path,
+                "the final codeword sequence is not the ISO interleave of the data blocks followed by the interleave of each block's "
+                "own EC codewords (first differing position of the first configuration shown)")
+    ctx.floor(rid, "(version, level) cells evaluated", runs, 160)
+
+
+def _sym(x, ec):
+    if x == TOP:
+        return "unknown"
+    if x[0] == "sbyte":
+        return "data[%d]" % x[1]
+    if x[0] == "rembuf":
+        return "EC codeword %d of block data[%d..%d] (remainder cell %d)" % (x[3] - (255 - ec), x[1], x[2], x[3])
+    if x[0] == "int":
+        return str(x[2])
+    return str(x)
